@@ -45,7 +45,7 @@ def main():
             sh(["git", "-C", "/repo", "worktree", "remove", "--force", wt])
             continue
         wts[name] = wt
-        env = dict(os.environ, VERIF_REPO=wt)
+        env = dict(os.environ, VERIF_REPO=wt, VERIF_EVIDENCE_DIR="/tmp/verif_selftest_evidence")
         t0 = time.time()
         rc, o = sh(["./check", prop, "--tier", tier], cwd=V, env=env)
         lines = [l for l in o.splitlines() if l.startswith(("VIOLATION", prop + " "))]
